@@ -290,6 +290,12 @@ fn defs() -> Defs {
     d.insert("Even".into(), o(vec![("odd", false, T::Union(vec![T::Ref("Odd".into()), T::Null]))]));
     d.insert("Odd".into(), o(vec![("even", false, T::Ref("Even".into())), ("v", false, T::NumLit(1))]));
     d.insert("RecTuple".into(), T::Tup(vec![T::Num, T::Arr(Box::new(T::Ref("RecTuple".into())))], None));
+    // recursion that closes on a list type directly: through the rest, through an element, twins, and one without finite values
+    d.insert("RestRec".into(), T::Tup(vec![T::Num], Some(Box::new(T::Ref("RestRec".into())))));
+    d.insert("ElemRec".into(), T::Tup(vec![T::Num, T::Union(vec![T::Ref("ElemRec".into()), T::Null])], None));
+    d.insert("ElemRecTwin".into(), T::Tup(vec![T::Num, T::Union(vec![T::Ref("ElemRecTwin".into()), T::Null])], None));
+    d.insert("ElemRecWide".into(), T::Tup(vec![T::Num, T::Union(vec![T::Ref("ElemRecWide".into()), T::Null, T::Str])], None));
+    d.insert("NoValueTuple".into(), T::Tup(vec![T::Ref("NoValueTuple".into())], None));
     d.insert("Loop".into(), o(vec![("id", false, T::Str), ("self", false, T::Ref("Loop".into()))])); // no finite value
     d.insert("OList".into(), o(vec![("v", false, T::Num), ("n", true, T::Ref("OList".into()))]));
     d
@@ -1011,7 +1017,7 @@ fn c05(tier: &str, seed: u64) -> Value {
     // laws on the recursive pool (need no universe)
     let mut out = out.into_inner().unwrap();
     let schemas = named_schemas(&d);
-    let rec: Vec<T> = ["List", "Tree", "Even", "Odd", "RecTuple", "Loop", "OList"].iter().map(|n| T::Ref(n.to_string())).collect();
+    let rec: Vec<T> = ["List", "Tree", "Even", "Odd", "RecTuple", "Loop", "OList", "RestRec", "ElemRec", "ElemRecTwin", "ElemRecWide", "NoValueTuple"].iter().map(|n| T::Ref(n.to_string())).collect();
     let mut law_checks = 0u64;
     let sub = |a: &T, b: &T| -> Option<bool> { let t0 = std::time::Instant::now(); let r = beff_subtype(&schemas, a, b, 0).ok().map(|v| v.0); if t0.elapsed().as_millis() > 300 && std::env::var("VERIF_DEBUG").is_ok() { eprintln!("slow law {} ms: {} <: {}", t0.elapsed().as_millis(), show(a), show(b)); } r };
     for a in &rec {
@@ -1042,6 +1048,23 @@ fn c05(tier: &str, seed: u64) -> Value {
                     out.violation("C05 law: transitivity fails".into(), format!("{} <: {} <: {} but not {} <: {}", show(a), show(b), show(c), show(a), show(c)), json!({"a": show(a), "b": show(b), "c": show(c)}));
                 }
             }
+        }
+    }
+    // structurally identical recursive aliases are the same type; a strictly wider one is a supertype only
+    {
+        let r = |n: &str| T::Ref(n.to_string());
+        law_checks += 4;
+        if sub(&r("ElemRec"), &r("ElemRecTwin")) != Some(true) || sub(&r("ElemRecTwin"), &r("ElemRec")) != Some(true) {
+            out.violation("C05 law: two structurally identical recursive tuple aliases are not equivalent".into(), "ElemRec = [number, ElemRec | null] vs its twin".into(), json!({"a": "ElemRec", "b": "ElemRecTwin"}));
+        }
+        if sub(&r("ElemRec"), &r("ElemRecWide")) != Some(true) {
+            out.violation("C05 law: a recursive tuple alias is not a subtype of its widening".into(), "ElemRec <: ElemRecWide".into(), json!({"a": "ElemRec", "b": "ElemRecWide"}));
+        }
+        if sub(&r("ElemRecWide"), &r("ElemRec")) != Some(false) {
+            out.violation("C05 law: a widened recursive tuple alias is a subtype of the narrow one".into(), "ElemRecWide <: ElemRec although [1, \"a\"] is a witness".into(), json!({"a": "ElemRecWide", "b": "ElemRec"}));
+        }
+        if sub(&r("NoValueTuple"), &T::Never) != Some(true) {
+            out.violation("C05 a type without finite values is not empty".into(), "NoValueTuple = [NoValueTuple] should be a subtype of never".into(), json!({"a": "NoValueTuple"}));
         }
     }
     // pinned calibration (tests/is_sub_type.rs): a type without finite values is a subtype of everything
@@ -1428,6 +1451,70 @@ fn c07(tier: &str, seed: u64) -> Value {
             }
         }
     }
+    // Set / Map members survive a difference taken from a top type (their clauses then hold negated atoms only)
+    let mut container_checks = 0u64;
+    {
+        fn positive_kinds(t: &Runtype, acc: &mut BTreeSet<&'static str>) {
+            match &t.kind {
+                RuntypeKind::Set(_) => { acc.insert("set"); }
+                RuntypeKind::Map(_, _) => { acc.insert("map"); }
+                RuntypeKind::Array(_) | RuntypeKind::Tuple { .. } | RuntypeKind::AnyArrayLike => { acc.insert("list"); }
+                RuntypeKind::Object { .. } => { acc.insert("object"); }
+                RuntypeKind::AnyOf(m) => m.iter().for_each(|x| positive_kinds(x, acc)),
+                // an intersection is of the kind of its positive members (negations only carve values out)
+                RuntypeKind::AllOf(m) => m.iter().filter(|x| !matches!(x.kind, RuntypeKind::StNot(_))).for_each(|x| positive_kinds(x, acc)),
+                RuntypeKind::Any => { acc.insert("set"); acc.insert("map"); acc.insert("list"); acc.insert("object"); }
+                _ => {}
+            }
+        }
+        let mk = |r: Runtype, ctx: &mut SemTypeContext| r.to_sem_type(&[], ctx).ok();
+        let mut ctx = SemTypeContext::new();
+        let set_s = mk(Runtype::set(Box::new(Runtype::string())), &mut ctx);
+        let set_n = mk(Runtype::set(Box::new(Runtype::number())), &mut ctx);
+        let map_s = mk(Runtype::map(Box::new(Runtype::string()), Box::new(Runtype::number())), &mut ctx);
+        let map_n = mk(Runtype::map(Box::new(Runtype::number()), Box::new(Runtype::number())), &mut ctx);
+        let arr_s = mk(Runtype::array(Box::new(Runtype::string())), &mut ctx);
+        let arr_n = mk(Runtype::array(Box::new(Runtype::number())), &mut ctx);
+        let str_t = mk(Runtype::string(), &mut ctx);
+        if let (Some(set_s), Some(set_n), Some(map_s), Some(map_n), Some(arr_s), Some(arr_n), Some(str_t)) = (set_s, set_n, map_s, map_n, arr_s, arr_n, str_t) {
+            let tops: Vec<(&str, Rc<SemType>)> = vec![("unknown", Rc::new(SemTypeContext::unknown()))];
+            let subtrahends: Vec<(&str, Rc<SemType>, &'static str, Rc<SemType>)> = vec![
+                ("Set<string>", set_s.clone(), "set", set_n.clone()),
+                ("Map<string, number>", map_s.clone(), "map", map_n.clone()),
+                ("Array<string>", arr_s.clone(), "list", arr_n.clone()),
+            ];
+            for (tname, top) in &tops {
+                for (sname, sub_t, kind, witness_type) in &subtrahends {
+                    for with_string in [false, true] {
+                        let rhs = if with_string { sub_t.union(&str_t).unwrap() } else { sub_t.clone() };
+                        let d = match top.diff(&rhs) { Ok(d) => d, Err(_) => continue };
+                        // the other container type of the same kind is still inside the difference
+                        let still_there = match d.intersect(witness_type) {
+                            Ok(i) => !i.is_empty(&mut ctx).unwrap_or(true),
+                            Err(_) => false,
+                        };
+                        let name = uuid("Computed");
+                        let mut local_counter = 10_000usize;
+                        if let Ok(Ok((head, _))) = std::panic::catch_unwind(std::panic::AssertUnwindSafe(|| semtype_to_runtypes(&mut ctx, &d, &name, &mut local_counter))) {
+                            container_checks += 1;
+                            let mut kinds = BTreeSet::new();
+                            positive_kinds(&head.schema, &mut kinds);
+                            if std::env::var("VERIF_DEBUG").is_ok() {
+                                eprintln!("container check {} \\ {} (+string {}): still_there={} kinds={:?} schema={:?}", tname, sname, with_string, still_there, kinds, head.schema);
+                            }
+                            if still_there && !kinds.contains(kind) {
+                                out.violation(
+                                    format!("C07 difference: the materialised type has no {} member although the computed type has", kind),
+                                    format!("{} \\ {}{}: materialised as {:?}", tname, sname, if with_string { " | string" } else { "" }, head.schema),
+                                    json!({"computed": format!("Exclude<{}, {}{}>", tname, sname, if with_string { " | string" } else { "" })}),
+                                );
+                            }
+                        }
+                    }
+                }
+            }
+        }
+    }
     // operator model for keyof: objects over the names a, b with no / a string / a number index signature, alone and
     // in unions and intersections of two; keyof must hold exactly the keys the operand's members declare
     // (union: common keys; intersection: all keys). A number against a string index signature is not judged
@@ -1503,7 +1590,7 @@ fn c07(tier: &str, seed: u64) -> Value {
         }
     }
     json!({
-        "violations": out.violations, "violation_counts": out.seen_keys, "violation_cases": out.cases, "keyof_model_checks": keyof_model_checks,
+        "violations": out.violations, "violation_counts": out.seen_keys, "violation_cases": out.cases, "keyof_model_checks": keyof_model_checks, "container_difference_checks": container_checks,
         "computed_types": computed, "evaluations": evals, "indexed_access_model_checks": model_checks, "operand_types": nterms, "distinct_nontrivial_rows": rows.len(),
         "pairs_where_postprocessing_widened": widened, "samples": samples, "postprocessing_errors_become_diagnostics": postprocess_errors, "reconverted_same_type": reconverted_same, "reconverted_not_same_type": reconverted_differs,
     })
